@@ -263,88 +263,92 @@ theorem goodRet_of_hit {maxDur now : Nat} {cs : List Consult} {u : Name} {e : En
     · left; show now - t' < maxDur; omega
     · right; exact ⟨e.ts, a, hts, hv, c⟩
 
+theorem inv_call {maxDur : Nat} (hmax : 0 < maxDur) {s : CState} (hs : Inv maxDur s) (u : Name)
+    (dir : Option Bool) : Inv maxDur (isAdminUserStep maxDur s u dir) := by
+  unfold isAdminUserStep
+  split
+  · -- valid entry
+    rename_i hvalid
+    refine ⟨hs.entries, ?_⟩
+    intro r hr
+    simp only [List.mem_cons] at hr
+    rcases hr with hr | hr
+    · subst hr
+      unfold Cache.get Cache.cachedOrigin at *
+      cases hc : s.cache u with
+      | none => rw [hc] at hvalid; cases hvalid
+      | some e =>
+        rw [hc] at hvalid
+        have hv : s.now - e.ts < maxDur := by simpa using hvalid
+        simp only []
+        exact goodRet_of_hit (hs.entries u e hc) hv
+    · exact hs.rets r hr
+  · rename_i hinvalid
+    cases dir with
+    | some v =>
+      refine ⟨?_, ?_⟩
+      · intro x e hx
+        simp only [Cache.upd] at hx
+        split at hx
+        · rename_i hxu
+          injection hx with hx
+          subst hx; subst hxu
+          exact ⟨Nat.le_refl _, Nat.le_refl _, List.mem_cons_self, Or.inl rfl⟩
+        · exact (hs.entries x e hx).mono _
+      · intro r hr
+        simp only [List.mem_cons] at hr
+        rcases hr with hr | hr
+        · subst hr
+          unfold GoodRet
+          refine ⟨Nat.le_refl _, List.mem_cons_self, Or.inl ?_⟩
+          show s.now - s.now < maxDur
+          omega
+        · exact (hs.rets r hr).mono _
+    | none =>
+      -- the previously cached value (possibly the zero entry) is re-stamped and returned
+      have key : GoodEntry s.now (⟨s.now, u, none⟩ :: s.consults) u
+          ⟨(Cache.get maxDur s.cache s.now u).1, s.now, s.cache.cachedOrigin u⟩ := by
+        unfold Cache.get Cache.cachedOrigin
+        cases hc : s.cache u with
+        | none => exact ⟨Nat.le_refl _, rfl, List.mem_cons_self⟩
+        | some e =>
+          have he := hs.entries u e hc
+          refine ⟨Nat.le_refl _, ?_⟩
+          simp only []
+          cases ho : e.origin with
+          | none =>
+            have h2 := he.2
+            rw [ho] at h2
+            exact ⟨h2.1, List.mem_cons_self⟩
+          | some t' =>
+            have h2 := he.2
+            rw [ho] at h2
+            exact ⟨Nat.le_trans h2.1 he.1, List.mem_cons_of_mem _ h2.2.1, Or.inr List.mem_cons_self⟩
+      refine ⟨?_, ?_⟩
+      · intro x e hx
+        simp only [Cache.upd] at hx
+        split at hx
+        · rename_i hxu
+          injection hx with hx
+          subst hx; subst hxu
+          exact key
+        · exact (hs.entries x e hx).mono _
+      · intro r hr
+        simp only [List.mem_cons] at hr
+        rcases hr with hr | hr
+        · subst hr
+          have := goodRet_of_hit (maxDur := maxDur) key (by show s.now - s.now < maxDur; omega)
+          exact this
+        · exact (hs.rets r hr).mono _
+
 theorem inv_step {maxDur : Nat} (hmax : 0 < maxDur) {s : CState} (hs : Inv maxDur s) (ev : Ev) :
     Inv maxDur (cstep maxDur s ev) := by
   cases ev with
   | advance d =>
     exact ⟨fun u e h => (hs.entries u e h).later (Nat.le_add_right _ _), hs.rets⟩
   | call u dir =>
-    show Inv maxDur (isAdminUserStep maxDur s u dir)
-    unfold isAdminUserStep
-    split
-    · -- valid entry
-      rename_i hvalid
-      refine ⟨hs.entries, ?_⟩
-      intro r hr
-      simp only [List.mem_cons] at hr
-      rcases hr with hr | hr
-      · subst hr
-        unfold Cache.get Cache.cachedOrigin at *
-        cases hc : s.cache u with
-        | none => rw [hc] at hvalid; cases hvalid
-        | some e =>
-          rw [hc] at hvalid
-          have hv : s.now - e.ts < maxDur := by simpa using hvalid
-          simp only []
-          exact goodRet_of_hit (hs.entries u e hc) hv
-      · exact hs.rets r hr
-    · rename_i hinvalid
-      cases dir with
-      | some v =>
-        refine ⟨?_, ?_⟩
-        · intro x e hx
-          simp only [Cache.upd] at hx
-          split at hx
-          · rename_i hxu
-            injection hx with hx
-            subst hx; subst hxu
-            exact ⟨Nat.le_refl _, Nat.le_refl _, List.mem_cons_self, Or.inl rfl⟩
-          · exact (hs.entries x e hx).mono _
-        · intro r hr
-          simp only [List.mem_cons] at hr
-          rcases hr with hr | hr
-          · subst hr
-            unfold GoodRet
-            refine ⟨Nat.le_refl _, List.mem_cons_self, Or.inl ?_⟩
-            show s.now - s.now < maxDur
-            omega
-          · exact (hs.rets r hr).mono _
-      | none =>
-        -- the previously cached value (possibly the zero entry) is re-stamped and returned
-        have key : GoodEntry s.now (⟨s.now, u, none⟩ :: s.consults) u
-            ⟨(Cache.get maxDur s.cache s.now u).1, s.now, s.cache.cachedOrigin u⟩ := by
-          unfold Cache.get Cache.cachedOrigin
-          cases hc : s.cache u with
-          | none => exact ⟨Nat.le_refl _, rfl, List.mem_cons_self⟩
-          | some e =>
-            have he := hs.entries u e hc
-            refine ⟨Nat.le_refl _, ?_⟩
-            simp only []
-            cases ho : e.origin with
-            | none =>
-              have h2 := he.2
-              rw [ho] at h2
-              exact ⟨h2.1, List.mem_cons_self⟩
-            | some t' =>
-              have h2 := he.2
-              rw [ho] at h2
-              exact ⟨Nat.le_trans h2.1 he.1, List.mem_cons_of_mem _ h2.2.1, Or.inr List.mem_cons_self⟩
-        refine ⟨?_, ?_⟩
-        · intro x e hx
-          simp only [Cache.upd] at hx
-          split at hx
-          · rename_i hxu
-            injection hx with hx
-            subst hx; subst hxu
-            exact key
-          · exact (hs.entries x e hx).mono _
-        · intro r hr
-          simp only [List.mem_cons] at hr
-          rcases hr with hr | hr
-          · subst hr
-            have := goodRet_of_hit (maxDur := maxDur) key (by show s.now - s.now < maxDur; omega)
-            exact this
-          · exact (hs.rets r hr).mono _
+    have h := inv_call hmax hs u dir
+    exact ⟨h.entries, h.rets⟩
 
 theorem inv_run {maxDur : Nat} (hmax : 0 < maxDur) (evs : List Ev) {s : CState}
     (hs : Inv maxDur s) : Inv maxDur (crun maxDur s evs) := by
@@ -360,7 +364,7 @@ theorem nofail_step {maxDur : Nat} {s : CState} (hs : NoFail s) (ev : Ev)
   cases ev with
   | advance d => exact hs
   | call u dir =>
-    show NoFail (isAdminUserStep maxDur s u dir)
+    show ∀ c, c ∈ (isAdminUserStep maxDur s u dir).consults → c.ans ≠ none
     unfold isAdminUserStep
     split
     · exact hs
@@ -381,5 +385,67 @@ theorem nofail_run {maxDur : Nat} (evs : List Ev) {s : CState} (hs : NoFail s)
     apply ih (nofail_step hs ev ?_)
     · intro u hu; exact hev u (List.mem_cons_of_mem _ hu)
     · intro u he; exact hev u (by rw [he]; exact List.mem_cons_self)
+
+/-! ### what an outside observer can check -/
+
+/-- every consultation is one of the answers offered at a call -/
+def SubOffered (s : CState) : Prop := ∀ c, c ∈ s.consults → c ∈ s.offered
+
+theorem sub_step {maxDur : Nat} {s : CState} (hs : SubOffered s) (ev : Ev) :
+    SubOffered (cstep maxDur s ev) := by
+  cases ev with
+  | advance d => exact hs
+  | call u dir =>
+    show ∀ c, c ∈ (isAdminUserStep maxDur s u dir).consults → c ∈ (⟨s.now, u, dir⟩ :: s.offered)
+    unfold isAdminUserStep
+    split
+    · intro c hc; exact List.mem_cons_of_mem _ (hs c hc)
+    · cases dir with
+      | some v =>
+        intro c hc
+        simp only [List.mem_cons] at hc
+        rcases hc with hc | hc
+        · subst hc; exact List.mem_cons_self
+        · exact List.mem_cons_of_mem _ (hs c hc)
+      | none =>
+        intro c hc
+        simp only [List.mem_cons] at hc
+        rcases hc with hc | hc
+        · subst hc; exact List.mem_cons_self
+        · exact List.mem_cons_of_mem _ (hs c hc)
+
+theorem sub_run {maxDur : Nat} (evs : List Ev) {s : CState} (hs : SubOffered s) :
+    SubOffered (crun maxDur s evs) := by
+  induction evs generalizing s with
+  | nil => exact hs
+  | cons ev rest ih => exact ih (sub_step hs ev)
+
+theorem blackbox_of_goodRet {maxDur : Nat} {cs offered : List Consult} {r : Ret}
+    (hsub : ∀ c, c ∈ cs → c ∈ offered) (h : GoodRet maxDur cs r) :
+    blackboxOK maxDur offered r.t r.user r.verdict = true := by
+  unfold GoodRet at h
+  unfold blackboxOK
+  cases ho : r.origin with
+  | none =>
+    rw [ho] at h
+    obtain ⟨hv, t'', ht, hm⟩ := h
+    apply Bool.or_eq_true_iff.mpr
+    left
+    rw [hv]
+    simp only [beq_self_eq_true, Bool.true_and, List.any_eq_true]
+    exact ⟨_, hsub _ hm, by simp [ht]⟩
+  | some t' =>
+    rw [ho] at h
+    obtain ⟨h1, h2, h3⟩ := h
+    apply Bool.or_eq_true_iff.mpr
+    right
+    simp only [List.any_eq_true]
+    refine ⟨_, hsub _ h2, ?_⟩
+    rcases h3 with h3 | ⟨t'', a, b, c, d⟩
+    · simp [h1, h3]
+    · simp only [h1, decide_true, Bool.and_true, beq_self_eq_true, Bool.true_and, Bool.or_eq_true,
+        decide_eq_true_eq, List.any_eq_true, Bool.and_eq_true, beq_iff_eq]
+      right
+      exact ⟨_, hsub _ d, ⟨⟨⟨rfl, rfl⟩, a⟩, b⟩, c⟩
 
 end KM.Admin
